@@ -29,7 +29,7 @@ def _err(code, path=None, path2=None):
 
 
 class Inode:
-    __slots__ = ("ino", "kind", "data", "children", "atime", "mtime", "ctime", "nlink", "mode", "opens")
+    __slots__ = ("ino", "kind", "data", "children", "atime", "mtime", "ctime", "nlink", "mode", "opens", "gen")
 
     def __init__(self, ino, kind, now, mode):
         self.ino = ino
@@ -40,6 +40,7 @@ class Inode:
         self.nlink = 1 if kind == "f" else 2
         self.mode = mode
         self.opens = 0
+        self.gen = 0  # bumped by every change of the file's data (harness-side identity of "this content")
 
 
 class OpenFile:
@@ -303,6 +304,7 @@ class SimFS:
         elif length > cur:
             node.data.extend(b"\0" * (length - cur))
         node.mtime = node.ctime = self.clock.stamp()
+        node.gen += 1
         self.mutations += 1
 
     # --------------------------------------------------------------- open files
@@ -329,6 +331,7 @@ class SimFS:
                 if len(node.data):
                     del node.data[:]
                 node.mtime = node.ctime = now
+                node.gen += 1
                 self.mutations += 1
         of = OpenFile(node, readable, writable, append, posixpath.normpath(path), self.hook.owner())
         if append:
@@ -378,6 +381,7 @@ class SimFS:
         of.pos = end
         if n:
             node.mtime = node.ctime = self.clock.stamp()
+        node.gen += 1
         self.mutations += 1
         if directive is not None and directive[0] == "torn":
             self.hook.die()
@@ -551,11 +555,11 @@ class SimFS:
 
         def rec(p, node):
             if node.kind == "d":
-                out.append((p, "d", 0, 0, 0, b""))
+                out.append((p, "d", 0, 0, 0, b"", node.ino, 0))
                 for n in sorted(node.children):
                     rec(p + "/" + n, node.children[n])
             else:
-                out.append((p, "f", len(node.data), node.atime, node.mtime, bytes(node.data)))
+                out.append((p, "f", len(node.data), node.atime, node.mtime, bytes(node.data), node.ino, node.gen))
 
         node = self.h_node(path)
         if node is not None:
